@@ -7,7 +7,8 @@ CONSTANTS
   MaxLen = 0
   MaxTime = 0
   RawOps = FALSE
-  IOAmts = {}
+  IOIns = {}
+  IOOuts = {}
   Genesis = {}
 VIEW TraceView
 CONSTRAINT HighWater
